@@ -270,6 +270,10 @@ def conc_props_of(f):
         ps.append("C06")
     if tag == "panic" and re.search(r"inside `(iter|frozeniter)", f):
         ps.append("C07")
+    # life-cycle failures of a run in which a closure panicked: "the entry being processed is left
+    # unchanged ... every later operation sees a consistent state" is C18's as well
+    if tag in ("retire-reachable", "uaf", "early-free", "double-free", "drop") and re.search(r"cippanic|panicat=", f):
+        ps.append("C18")
     return ps
 
 
@@ -870,7 +874,9 @@ def check_C18(R):
     lean_step(R, "C18")
     if harness_step(R):
         seq_step(R, "C18")
-        conc_step(R, "C18", modes=("panic",), merge=True)
+        # with the life-cycle ledger: a value retired (or freed) although the entry a panicking
+        # closure left unchanged still holds it
+        conc_step(R, "C18", extra_args=["--life", "1"], modes=("panic",), merge=True)
 
 
 def check_C03(R):
